@@ -45,9 +45,11 @@ EmitRec ==
           sweeps |-> CaseSweeps, ok_from |-> st.nburn, ascoded_ok_from |-> AsCodedOKFrom(st.nburn)]
     [] st.k = "case" /\ st.sim = "simpgs" ->
          [kind |-> "case", c |-> st, data |-> XY(DataSet("D4")), props |-> RuleProps(st.rule), sel |-> SelSeq(st.mask, 4),
+          split_x |-> PropSplit, propa |-> PropA(st.rule), propb |-> PropB(st.rule), unit |-> 100,
           layout_ok |-> LayoutOK(1, PgsNgrf(st), st.nbsimu), ngrf |-> PgsNgrf(st)]
     [] st.k = "case" /\ st.sim = "simbipgs" ->
          [kind |-> "case", c |-> st, data |-> XY(DataSet("D4")), props |-> Props2(st.rule, st.rule2), sel |-> SelSeq(st.mask, 4),
+          split_x |-> PropSplit, propa |-> JointA(st.rule), propb |-> JointB(st.rule), unit |-> 10000,
           layout_ok |-> LayoutOK(2, PgsNgrf(st), st.nbsimu), ngrf |-> PgsNgrf(st)]
     [] OTHER -> [kind |-> "none"]
 Emit == st.k \in {"tgb", "layout", "rule", "case"} => PrintT(ToJson(EmitRec))
